@@ -56,6 +56,11 @@ def run(F, R, tier):
     R.ob("C11-a", "the trace queue is drained", len(dr) == 1 and any(callee_matches(x, [RF + "analyze_trace"]) for x in walk(dr[0]["body"])), "pending traces are not all analysed", fd["file"])
     ep = [n for n in fd["_nodes"] if n.get("k") == "MethodCall" and n["name"] == "values" and tyc(F, n["recv"], "BTreeMap<std::string::String, std::string::String>")]
     R.ob("C11-a", "entrypoints are all values of the package's exports map", len(ep) == 1, "entrypoints no longer derived from every export", fd["file"])
+    # every queued package is analysed: the package queue loop never stops early
+    pq = [n for n in fd["_nodes"] if n["k"] == "While" and any(x.get("k") == "MethodCall" and x["name"] == "pop_front" and field_of(x["recv"]) == "pending_nvs" for x in walk(n["cond"]))]
+    if R.ob("C11-a", "package queue loop found", len(pq) == 1, "find no longer drains pending_nvs with a while-let loop", fd["file"]):
+        early = [x for x in walk(pq[0]["body"]) if x.get("k") in ("Break", "Ret") and not [a for a in k_ancestors(x) if a.get("k") in ("For", "While", "Loop", "Closure") and is_within(a, pq[0]["body"])]]
+        R.ob("C11-a", "every queued package is analysed", not early, "the package queue loop of find can stop early (`%s`): packages queued behind it get no fast-check output" % (expr_text(early[0])[:20] if early else ""), where(early[0]) if early else "")
     # ---------------- C11-c ------------------------------------------------
     td = F.body(T + "transform_decl")
     prs = [n for n in td["_nodes"] if n.get("k") == "LetStmt" and "init" in n and peel(n["init"]).get("k") == "MethodCall" and peel(n["init"])["name"] == "unwrap_or_else" and tyc(F, n["pat"], "SourceRange")]
